@@ -34,6 +34,7 @@ FOREIGN = {
         (("rules.C04", "table_rules", "facts"), "a correct entry is read to EOF without a checksum error, a wrong one never"),
     ],
     "C02": [
+        (("rules.shared_count", "exact_rule", "facts"), "copied and serialised bytes are moved with exact-length primitives (a single read()/write() leaves a zero-filled or missing tail under headers that announce the full size)"),
         (("rules.C15", "write_rules", "ctx"), "an entry flagged encrypted carries the 12-byte encryption header, whichever opener started it"),
         (("rules.C13", "sameparser_rules", "facts"), "an appended archive's old entries keep offsets relative to the stream: new_append applies the archive offset like the reader"),
         (ENTRYF, "the headers describe the entry that was asked for: method, flags, timestamp, large-file form come from the options"),
@@ -58,6 +59,7 @@ FOREIGN = {
         (("rules.C03", "dosmode_rules", "facts"), "permission bits derived from DOS attributes"),
     ],
     "C08": [
+        (("rules.C01", "patch_rules", "facts"), "the 4 GiB refusal of a non-large entry keeps failing on every later close (the size recomputation is checked, not saturated)"),
         (("rules.C03", "sentinel_rules", "facts"), "foreign ZIP64 archives that mask the classic disk numbers are accepted"),
         (("rules.C10", "drain_rules", "facts"), "a streamed ZIP64 entry is bounded by its 64-bit size: the limit is taken after the local ZIP64 record was decoded"),
         (("rules.C01", "patchoff_rules", "ctx"), "the local ZIP64 record is written and back-patched in the order (uncompressed, compressed) at the offsets of the table"),
@@ -72,6 +74,7 @@ FOREIGN = {
         (("rules.C04", "table_rules", "facts"), "contents are CRC-checked the same way"),
     ],
     "C13": [
+        (("rules.C19", "flag_decode_rules", "facts"), "old names are re-read by the flagged encoding only (an append does not rename entries)"),
         (("rules.C03", "central_rules", "ctx"), "old entries are located through their own local headers (names re-encoded on re-emission do not shift them)"),
         (("rules.C01", "mode_rules", "ctx"), "re-emitted entries keep their external attributes: the shift is applied where the attribute word is built, not where it is written"),
         (WREF, "appending entries is refused only where it was"),
@@ -124,13 +127,18 @@ FOREIGN = {
         (RREF, "the right password is refused nowhere new; tampering is refused everywhere it was"),
     ],
     "C09": [
+        (("rules.C04", "wrap_rules", "facts"), "a zero-length read does not change which reader answers the next one"),
+        (("rules.C03", "central_rules", "ctx"), "the local header is located by absolute seeks and exact reads"),
         (("rules.C04", "table_rules", "facts"), "a short read is not the end of data: the checksum verdict is tied to Ok(0) of the inner reader only"),
     ],
     "C12": [
+        (("rules.C02", "sib_rules", "ctx"), "the extra-data API and large_file combine: the re-patched local extra length counts the ZIP64 placeholder"),
+        (("rules.shared_count", "exact_rule", "facts"), "every opener hands its content to the sink with exact-length writes"),
         (("rules.C02", "seekabs_rules", "facts"), "extra-data entries started on a stream that has bytes behind the write position (append) land where the headers say"),
         (("rules.shared_count", "count_rule", "facts"), "a partially accepted write is accounted as exactly the accepted bytes: retrying the rest is legal use"),
     ],
     "C19": [
+        (("rules.C03", "fieldwriters_rules", "facts"), "nothing replaces the decoded name afterwards (no extra field overrides it)"),
         (("rules.C01", "mode_rules", "ctx"), "a directory name given with a trailing separator is stored as given (both separators are honoured)"),
         (("rules.C14", "name_rules", "facts"), "a raw copy keeps the decoded name (not a re-decoding of the raw bytes under another encoding)"),
         (("rules.C01", "patchoff_rules", "ctx"), "the stored name bytes are not overwritten: the ZIP64 back-patch lands behind the name's BYTE length"),
@@ -138,6 +146,9 @@ FOREIGN = {
     ],
     "C11": [
         (("rules.C15", "write_rules", "ctx"), "a failed flush of an encrypted entry leaves no half-finished encrypting writer behind (finish consumes it)"),
+    ],
+    "C05": [
+        (("rules.C02", "narrow_rules", "ctx"), "records parsed from untrusted bytes and re-emitted by an appending writer cannot overflow the serialisers' 16-bit length arithmetic"),
     ],
     "C20": [
         (("rules.C03", "central_rules", "ctx"), "opening an entry records its data start itself, on every path: what a handle reports never depends on what a clone did before"),
